@@ -31,7 +31,9 @@ def main():
     ok = False
     try:
         patch = os.path.abspath(os.path.join(src, "patch.diff"))
-        rc, out = sh(f"git apply {patch} || git apply -3 {patch} || patch -p1 --fuzz=3 -s < {patch}", wt)
+        if os.path.exists(os.path.join(src, "patch.adapted.diff")):
+            patch = os.path.abspath(os.path.join(src, "patch.adapted.diff"))  # re-based by hand on the current HEAD (see meta)
+        rc, out = sh(f"if git apply --check {patch} 2>/dev/null; then git apply {patch}; elif patch -p1 --fuzz=3 --dry-run -s < {patch} >/dev/null 2>&1; then patch -p1 --fuzz=3 -s --no-backup-if-mismatch < {patch}; else echo does-not-apply; exit 1; fi", wt)
         if rc:
             log.append("patch does not apply on current HEAD: " + out[-300:]); raise SystemExit
         sh("git reset -q", wt)
@@ -57,30 +59,32 @@ def main():
             os.remove(os.path.join(wt, b))
         sh(f"git apply /tmp/wtc/{sid}.applied.diff", wt)
         if not quick:
-            # the suite has load-sensitive tests (10 s server start-up, 15 s sequencing timeout): wait for a quiet machine
-            for _ in range(240):
-                if os.getloadavg()[0] < 6: break
-                time.sleep(30)
+            # phase A (can run beside other jobs): everything except the two load-sensitive tests
             t = time.time()
-            rc3, out3 = sh("go test -vet=off -count=1 -timeout 40m ./... 2>&1 | grep -v '^ok\\|no test files' | head -60", wt, 3600)
+            rc3, out3 = sh("go test -vet=off -count=1 -timeout 40m -skip 'TestSequenceLargeLog|TestScripts|TestCCADBRoots' ./... 2>&1 | grep -v '^ok\\|no test files' | head -60", wt, 3600)
             fails = [l for l in out3.splitlines() if l.startswith("--- FAIL") or l.startswith("FAIL")]
-            real = [l for l in fails if "TestCCADBRoots" not in l and l.strip() not in ("FAIL", "FAIL\tfilippo.io/sunlight/cmd/sunlight") and not l.startswith("FAIL\tfilippo.io/sunlight/cmd/sunlight")]
-            log.append(f"suite with patch ({time.time()-t:.0f}s): failing lines: {real}")
-            if real:
-                # retry the failing packages once, alone (load-sensitive tests)
-                pk = sorted({l.split("\t")[1] for l in real if l.startswith("FAIL\t") and "\t" in l})
-                still = []
-                for p in pk:
-                    for attempt in range(3):
-                        for _ in range(240):
-                            if os.getloadavg()[0] < 6: break
-                            time.sleep(30)
-                        rcx, outx = sh(f"go test -vet=off -count=1 -timeout 40m {p} 2>&1 | tail -15", wt, 3600)
-                        if "FAIL" not in outx: break
-                    if "FAIL" in outx: still.append(p + ": " + outx[-300:].replace("\n", " | "))
-                log.append(f"retry alone: still failing: {still}")
-                if still:
-                    log.append("NOT CONFIRMED: existing suite fails with the patch"); raise SystemExit
+            log.append(f"suite with patch, without the two load-sensitive tests ({time.time()-t:.0f}s): failing lines: {fails}")
+            if fails:
+                log.append("NOT CONFIRMED: existing suite fails with the patch: " + out3[-600:].replace("\n", " | ")); raise SystemExit
+            # phase B (serialised across confirmations, waits for a quiet machine): the load-sensitive tests
+            import fcntl
+            with open("/tmp/wtc/serial.lock", "w") as lk:
+                fcntl.flock(lk, fcntl.LOCK_EX)
+                for name, cmd in [("TestSequenceLargeLog", "go test -vet=off -count=1 -timeout 40m -run 'TestSequenceLargeLog' ./internal/ctlog/"),
+                                  ("cmd/skylight TestScripts", "go build -o /dev/null ./cmd/skylight/ && go test -vet=off -count=1 -timeout 20m -run 'TestScripts' ./cmd/skylight/")]:
+                    passed = False
+                    for attempt in range(4):
+                        for _ in range(120):
+                            if os.getloadavg()[0] < 10: break
+                            time.sleep(20)
+                        t = time.time()
+                        rcx, outx = sh(cmd + " 2>&1 | tail -12", wt, 3600)
+                        if "FAIL" not in outx and "ok" in outx:
+                            passed = True
+                            log.append(f"{name} with patch: ok (attempt {attempt+1}, {time.time()-t:.0f}s, load {os.getloadavg()[0]:.0f})")
+                            break
+                    if not passed:
+                        log.append(f"NOT CONFIRMED: {name} fails with the patch: " + outx[-400:].replace("\n", " | ")); raise SystemExit
         ok = True
     except SystemExit:
         pass
